@@ -49,6 +49,9 @@ func c20Scalar(r *Rand) Val {
 
 func c20List(r *Rand) []Val {
 	n := r.Range(0, 4)
+	if r.Bool(0.1) {
+		n = r.Range(5, 20) // capacities: growth and aliasing behave differently once append reallocates
+	}
 	out := make([]Val, n)
 	for i := range out {
 		out[i] = c20Scalar(r)
@@ -57,7 +60,7 @@ func c20List(r *Rand) []Val {
 }
 
 func (propC20) Gen(r *Rand) *Plan {
-	nops := r.Range(2, 24*Scale)
+	nops := r.Range(2, 24*r.Size())
 	var ops []Op
 	h := func() int { return r.Intn(c20Handles) }
 	for i := 0; i < nops; i++ {
@@ -83,9 +86,9 @@ func (propC20) Gen(r *Rand) *Plan {
 			ops = append(ops, Op{Op: "mutslice", J: r.Intn(c20Slices), I: r.Intn(5), V: &v})
 		case 5:
 			v := c20Scalar(r)
-			ops = append(ops, Op{Op: "setbyindex", H: h(), I: r.PickInt([]int{0, 0, 1, 2, 3, 5, 9}), V: &v})
+			ops = append(ops, Op{Op: "setbyindex", H: h(), I: r.PickInt([]int{0, 0, 1, 2, 3, 5, 9, 16, 17, 33, 64}), V: &v})
 		case 6:
-			ops = append(ops, Op{Op: "setlength", H: h(), I: r.Intn(8)})
+			ops = append(ops, Op{Op: "setlength", H: h(), I: r.PickInt([]int{0, 1, 2, 3, 4, 5, 6, 7, 8, 16, 17, 40})})
 		case 7:
 			ops = append(ops, Op{Op: "assign", H: h(), H2: h()})
 		case 8:
